@@ -1,4 +1,5 @@
 (* CorrForms.v -- shared correspondence entry for C04 and C08 (harness/src/forms.rs).
+   op 9: dst.clone_from(&src) (src = identities 0.., dst = identities 100..)
    case: [op; form; elem; N; pan; front; back; mode]
    elem: 0 Tr (x Tr), 1 u32 (x u32), 2 Tr x u32, 3 u32 x Tr (zip only), 4 Cn (Clone only), 5 zero-sized, 6 zero-sized with a counted destructor (generate / default only);
    mode (how the caller's code fails: own panic / destructor of an argument) does not change
@@ -59,6 +60,11 @@ Definition run_forms (case : list Z) : list Z :=
     else if op =? 5 then
       let '(o, e, calls) := default_ N fresh_id p in
       enc_outcome o ++ enc_tail (index_calls calls) e
+    else if op =? 9 then
+      (* dst.clone_from(&src): dst holds b; Clone::clone_from's default is `*self = source.clone()` *)
+      let clf := if elem =? 4 then (fun (_ : nat) (r : list Z) => hd 0 r + 1048576) else fresh_id in
+      let '(o, e, calls) := clone_from_ tracked clf p b a in
+      enc_outcome o ++ enc_tail calls e
     else
       let s := mkIt a (znat front) (N - znat back) in
       if op =? 6 then
